@@ -8,7 +8,7 @@ ShapeCases.tla: all 8 shape classes in 2-D/3-D with and without landmarks.
 ImageCases.tla: Image / MaskedImage / BooleanImage (shapes, channels, dtypes, masks)."""
 from ._cases import run_families
 
-FAM = [("transforms", "TransCases", "MC_TransCases_c05.cfg", "MC_TransCases_c05.cfg", "transcases", False),
+FAM = [("transforms", "TransCases", "MC_TransCases_c05.cfg", "MC_TransCases_c05t.cfg", "transcases", False),
        ("shapes", "ShapeCases", "MC_ShapeCases_c05.cfg", "MC_ShapeCases_c05.cfg", "shapes", False),
        ("images", "MC_ImageCases", "MC_ImageCases_c05.cfg", "MC_ImageCases_c05.cfg", "images", False)]
 
